@@ -3,6 +3,7 @@ package main
 import (
 	"fmt"
 	"reflect"
+	"sort"
 	"strings"
 
 	"github.com/mmcloughlin/avo/x86"
@@ -251,8 +252,12 @@ func genCtorsShard(i int) func(string) (string, error) {
 		if err != nil {
 			return "", err
 		}
+		if cs, ms, gs, err = sortByOpcode(repo, cs, ms, gs); err != nil {
+			return "", err
+		}
 		var b strings.Builder
 		fmt.Fprintf(&b, "-- REGENERATED from x86/zctors.go and build/zinstructions.go by avoh gen-lean Ctors_%02d (go/ast). Do not edit.\n", i)
+		b.WriteString("-- Rows are grouped by the opcode constant of the constructor, in enum order (the Lean side joins them\n-- with the forms table in one streaming pass); methods and globals follow the constructor of the same name.\n")
 		b.WriteString("import AvoVerif.Model.Instr\nset_option maxRecDepth 1000000\nnamespace Avo.Gen\nopen Avo.Instr\n")
 		lo, hi := shardBounds(len(cs), ctorShards, i)
 		fmt.Fprintf(&b, "def ctors_%02d : List CtorRow := [", i)
@@ -283,6 +288,46 @@ func genCtorsShard(i int) func(string) (string, error) {
 		b.WriteString("]\nend Avo.Gen\n")
 		return b.String(), nil
 	}
+}
+
+// sortByOpcode orders the constructor rows by the enum index of their opcode
+// constant (stable; unknown constants last) and the method / global rows by
+// the position of the constructor of the same name (unknown names last).
+// Ordering only: every judgement is made on the Lean side.
+func sortByOpcode(repo string, cs []ctorAST, ms, gs []wrapAST) ([]ctorAST, []wrapAST, []wrapAST, error) {
+	t, err := parseOptab(repo)
+	if err != nil {
+		return nil, nil, nil, err
+	}
+	idx := map[string]int{}
+	for i, n := range t.Opcs {
+		idx[n] = i
+	}
+	key := func(c *ctorAST) int {
+		if i, ok := idx[c.OpcConst]; ok {
+			return i
+		}
+		return len(t.Opcs)
+	}
+	cs = append([]ctorAST(nil), cs...)
+	sort.SliceStable(cs, func(a, b int) bool { return key(&cs[a]) < key(&cs[b]) })
+	pos := map[string]int{}
+	for i := range cs {
+		if _, dup := pos[cs[i].Name]; !dup {
+			pos[cs[i].Name] = i
+		}
+	}
+	wkey := func(w *wrapAST) int {
+		if i, ok := pos[w.Name]; ok {
+			return i
+		}
+		return len(cs)
+	}
+	ms = append([]wrapAST(nil), ms...)
+	gs = append([]wrapAST(nil), gs...)
+	sort.SliceStable(ms, func(a, b int) bool { return wkey(&ms[a]) < wkey(&ms[b]) })
+	sort.SliceStable(gs, func(a, b int) bool { return wkey(&gs[a]) < wkey(&gs[b]) })
+	return cs, ms, gs, nil
 }
 
 func genCtors(repo string) (string, error) {
